@@ -161,12 +161,12 @@ theorem ctxRel_setBO {x y : Ctx} (h : CtxRelW F x y) (o i : Int) :
 theorem oblTry_p2 (hP : PSim F b Cov) (hF : F.OK) (hNL : NL b)
     (blankLine continuable : Bool) (fuelA fuelB : Nat)
     (ih : ∀ (parent : Nat) (result : OpenResult) (lastBlock : Option Block) (sA sB : St),
-      SRw F b sA sB → AI Cov sA → HasLine b sA → (∀ l, lastBlock = some l → Cov l.bp) →
+      SRw F b sA sB → AI Cov sA → HL b sA → (∀ l, lastBlock = some l → Cov l.bp) →
       P2 (OpenQ2 F b Cov sA result)
         (openBlocksLoop blankLine continuable fuelA parent result lastBlock sA)
         (openBlocksLoop blankLine continuable fuelB (F.ι parent) result (lastBlock.map (shB F)) sB))
     (parent : Nat) (w : Int) (result : OpenResult) (lastBlock : Option Block) (bps : List BP) {sA sB : St}
-    (h : SR F b sA sB) (hl : HasLine b sA) (hc : AI Cov sA) (hlb : ∀ l, lastBlock = some l → Cov l.bp)
+    (h : SR F b sA sB) (hl : HL b sA) (hc : AI Cov sA) (hlb : ∀ l, lastBlock = some l → Cov l.bp)
     (hbps : ∀ bp ∈ bps, Cov bp) :
     P2 (OpenQ2 F b Cov sA result)
       (oblTry blankLine continuable fuelA parent w result lastBlock bps sA)
@@ -174,7 +174,7 @@ theorem oblTry_p2 (hP : PSim F b Cov) (hF : F.OK) (hNL : NL b)
   unfold oblTry
   refine P2.bind (get_p2 sA sB) (fun s0 t0 sA0 sB0 ⟨e1, e2, e3, e4⟩ => ?_)
   rw [e1, e2, e3, e4]
-  refine P2.bind (tryParsers_p2 hP hF (qnl_of_hasLine hNL hl) parent blankLine continuable w bps result lastBlock _ _ hbps hlb h hl hc)
+  refine P2.bind (tryParsers_p2 hP hF (qnl_of_hasLine hNL hl.1) parent blankLine continuable w bps result lastBlock _ _ hbps hlb h hl hc)
     (fun x y sA1 sB1 ⟨hy, hpost⟩ => ?_)
   subst hy
   cases hx1 : x.1 with
@@ -197,17 +197,17 @@ theorem oblTry_p2 (hP : PSim F b Cov) (hF : F.OK) (hNL : NL b)
     · rw [if_neg hm, if_neg hm]; exact fin
   | done =>
     simp only [shO]
-    refine (toContinuable_p2 hP hNL continuable x.2.1 x.2.2 hpost.lim (fun e => hpost.sr (.inr e)) hpost.hasLine hpost.lb).mono
+    refine (toContinuable_p2 hP hNL continuable x.2.1 x.2.2 hpost.lim (fun e => hpost.sr (.inr e)) (fun e => (hpost.hasLine e).1) hpost.lb).mono
       (fun u v sA' sB' ⟨hv, hlim, ho, hk, hline, hnew⟩ => ⟨hv, hlim, ?_, Int.le_trans hpost.line hline, ?_⟩)
     · exact hpost.ai.eqo ho hk
     · intro e he
       rw [ho]
       exact hpost.ne (hnew e) he
 
-theorem openBlocksLoop_p2 (hP : PSim F b Cov) (hF : F.OK) (hNL : NL b) (hT : Triggers b Cov)
+theorem openBlocksLoop_p2 (hP : PSim F b Cov) (hF : F.OK) (hNL : NL b) (hT : TrigAt b Cov)
     (blankLine continuable : Bool) :
     ∀ (fuelA fuelB parent : Nat) (result : OpenResult) (lastBlock : Option Block) (sA sB : St),
-      SRw F b sA sB → AI Cov sA → HasLine b sA → (∀ l, lastBlock = some l → Cov l.bp) →
+      SRw F b sA sB → AI Cov sA → HL b sA → (∀ l, lastBlock = some l → Cov l.bp) →
       P2 (OpenQ2 F b Cov sA result)
         (openBlocksLoop blankLine continuable fuelA parent result lastBlock sA)
         (openBlocksLoop blankLine continuable fuelB (F.ι parent) result (lastBlock.map (shB F)) sB) := by
@@ -220,7 +220,7 @@ theorem openBlocksLoop_p2 (hP : PSim F b Cov) (hF : F.OK) (hNL : NL b) (hT : Tri
     | zero => unfold openBlocksLoop; exact P2.throwR
     | succ fuelB =>
       rw [openBlocksLoop_succ, openBlocksLoop_succ]
-      refine P2.bind ((peekLine_core h.rd (.inr hl)).withL (R := fun _ sA' => sA.r.line ≤ sA'.r.line ∧ sA'.r.pos = sA.r.pos)
+      refine P2.bind ((peekLine_core h.rd (.inr hl.1)).withL (R := fun _ sA' => sA.r.line ≤ sA'.r.line ∧ sA'.r.pos = sA.r.pos)
         (fun a sA' e => ⟨peekLine_lg (k := sA.r.line) sA a sA' (Int.le_refl _) e, peekLine_pos _ _ _ e⟩))
         (fun lp lp' sA1 sB1 ⟨⟨⟨c, hc1, hlp⟩, hlp', hs1⟩, hline1, hpos1⟩ => ?_)
       have h1 := hs1.srw h
@@ -252,15 +252,15 @@ theorem openBlocksLoop_p2 (hP : PSim F b Cov) (hF : F.OK) (hNL : NL b) (hT : Tri
           rw [← epc2]
           split <;> rfl
       have hc3 : AI Cov sA3 := hc.eqo ho3 hk3
-      have hl3 : HasLine b sA3 := by
-        have hl1' : HasLine b sA1 := hasLine_of_pos hl ⟨c, hc1⟩ hpos1
-        have hl2' : HasLine b sA2 := hasLine_of_pos hl1' ⟨c2, hc2⟩ hpos2
-        exact hasLine_of_pos hl2' h3.ri (by rw [er3])
+      have hl3 : HL b sA3 := by
+        have hl1' : HL b sA1 := hl_of_pos hl ⟨c, hc1⟩ hpos1
+        have hl2' : HL b sA2 := hl_of_pos hl1' ⟨c2, hc2⟩ hpos2
+        exact hl_of_pos hl2' h3.ri (by rw [er3])
       have hline3 : sA.r.line ≤ sA3.r.line := by rw [er3]; exact Int.le_trans hline1 hline2
       have tc : P2 (OpenQ2 F b Cov sA result) (toContinuable continuable result lastBlock sA3)
           (toContinuable continuable result (lastBlock.map (shB F)) sB3) := by
-        refine (toContinuable_p2 hP hNL continuable result lastBlock (h3.limbo (qnl_of_hasLine hNL hl3)) (fun _ => h3)
-          (fun _ => hl3) hlb).mono
+        refine (toContinuable_p2 hP hNL continuable result lastBlock (h3.limbo (qnl_of_hasLine hNL hl3.1)) (fun _ => h3)
+          (fun _ => hl3.1) hlb).mono
           (fun u v sA' sB' ⟨hv, hlim, ho, hk, hline, hnew⟩ => ⟨hv, hlim, ?_, Int.le_trans hline3 hline, ?_⟩)
         · exact hc3.eqo ho hk
         · intro e he; rw [ho, ho3]; exact he (hnew e)
@@ -294,9 +294,9 @@ theorem openBlocksLoop_p2 (hP : PSim F b Cov) (hF : F.OK) (hNL : NL b) (hT : Tri
           (fun ch ch' sA4 sB4 ⟨e1, hidx, e2, e3⟩ => ?_)
         rw [e1, e2, e3]
         have hcov : ∀ bp ∈ (triggered ch).getD freeParsers, Cov bp := by
-          refine hT.2 ch (view_byte hv ?_)
           rw [hl1] at hidx
-          exact idx_mem hidx
+          simp only [Option.getD_some] at hidx
+          exact hT.2 c l lo ch hc1.inRange (hl3.2.tsafe hc1 (by rw [er3, hpos2])) hv hidx
         exact (oblTry_p2 hP hF hNL blankLine continuable fuelA fuelB (ih fuelB) parent _ result lastBlock _ h3 hl3 hc3 hlb
           hcov).mono conv
       · rw [if_neg hpos, if_neg hpos]
@@ -304,7 +304,7 @@ theorem openBlocksLoop_p2 (hP : PSim F b Cov) (hF : F.OK) (hNL : NL b) (hT : Tri
           hT.1).mono conv
 
 /-- parser.openBlocks under the relation -/
-theorem openBlocks_p2 (hP : PSim F b Cov) (hF : F.OK) (hNL : NL b) (hT : Triggers b Cov) : OpenBlocksSim F b Cov := by
+theorem openBlocks_p2 (hP : PSim F b Cov) (hF : F.OK) (hNL : NL b) (hT : TrigAt b Cov) : OpenBlocksSim F b Cov := by
   intro parent blank sA sB h hc hl
   unfold openBlocks
   -- lastOpenedBlock
